@@ -46,8 +46,19 @@ fn trace(run: &RunOut, with_time: bool) -> Vec<(u64, N)> {
 }
 
 pub fn compare(pipe: &Pipe, late: bool, seed: u64) -> (Option<(String, serde_json::Value)>, usize, bool) {
-  let a = run_pipe(Flavor::Local, pipe, Policy::Fifo, late, seed, &mut |_, _, _| {});
-  let b = run_pipe(Flavor::Threads, pipe, Policy::Fifo, late, seed, &mut |_, _, _| {});
+  compare_unsub(pipe, late, seed, None)
+}
+
+/// `unsub_at`: the subscription is unsubscribed before explorer step n (in both forms); the
+/// remaining events are still injected and everything still pending is still run
+pub fn compare_unsub(pipe: &Pipe, late: bool, seed: u64, unsub_at: Option<usize>) -> (Option<(String, serde_json::Value)>, usize, bool) {
+  let mut cut = |w: &mut World, step: usize, _: &mut Rng| {
+    if Some(step) == unsub_at {
+      w.unsubscribe(0);
+    }
+  };
+  let a = run_pipe(Flavor::Local, pipe, Policy::Fifo, late, seed, &mut cut);
+  let b = run_pipe(Flavor::Threads, pipe, Policy::Fifo, late, seed, &mut cut);
   let with_time = !real_time(&pipe.chain);
   match (&a, &b) {
     (Ok(ra), Ok(rb)) => {
@@ -89,8 +100,13 @@ pub fn run(cfg: &Cfg, rep: &mut Report) {
     let pipe = random_pipe(&mut r, &gcfg);
     let late = r.chance(1, 3);
     let seed = r.next();
+    // a third of the pairs are unsubscribed somewhere along the way
+    let unsub_at = if r.chance(1, 3) { Some(r.below(10)) } else { None };
+    if unsub_at.is_some() {
+      rep.count("pairs_unsubscribed_along_the_way", 1);
+    }
     rep.evaluations += 1;
-    let (res, events, delivered) = compare(&pipe, late, seed);
+    let (res, events, delivered) = compare_unsub(&pipe, late, seed, unsub_at);
     rep.events += events as u64;
     let has_dual = pipe.chain.any_op(&dual);
     if delivered && has_dual {
@@ -106,10 +122,10 @@ pub fn run(cfg: &Cfg, rep: &mut Report) {
       let mut still = |c: &Chain| {
         let mut p2 = pipe.clone();
         p2.chain = c.clone();
-        compare(&p2, late, seed).0.map_or(false, |(k, _)| k == k2)
+        compare_unsub(&p2, late, seed, unsub_at).0.map_or(false, |(k, _)| k == k2)
       };
       let small = shrink_chain(&pipe.chain, &mut still);
-      rep.violation(&kind, &locus_of(&small), &id, json!({"chain": pipe.chain.show(), "shrunk_chain": small.show(), "acts": format!("{:?}", pipe.acts), "late": late, "result": detail}));
+      rep.violation(&kind, &locus_of(&small), &id, json!({"chain": pipe.chain.show(), "shrunk_chain": small.show(), "acts": format!("{:?}", pipe.acts), "late": late, "unsubscribed_before_step": unsub_at, "result": detail}));
     } else {
       rep.sample_some(7019, || json!({"case": id, "chain": pipe.chain.show(), "acts": pipe.acts.len(), "late_schedule": late, "notifications_compared": events / 2}));
     }
